@@ -10,4 +10,5 @@ import "github.com/pkg/errors"
 var (
 	ErrDataTooSmall     = errors.New("AES256IGE: data too small")
 	ErrDataNotDivisible = errors.New("AES256IGE: data not divisible by block size")
+	ErrHashMismatch     = errors.New("couldn't trim message: hashes incompatible on more than 16 tries")
 )
